@@ -5,6 +5,7 @@ package symgo
 
 import (
 	"fmt"
+	"reflect"
 	"go/types"
 	"os"
 	"strings"
@@ -28,6 +29,8 @@ type Program struct {
 	InitAllow          []string                 // extra package-path prefixes whose init may run
 	Lifted             map[string]func(in *interpreter) value
 	Natives            map[string]func(args []string) string
+	Hooks              map[string]NativeHook
+	LiftHooks          map[string]func(in *Interp, elem reflect.Value) Value // by pointee type "pkg.Name"
 }
 
 type LoadConfig struct {
